@@ -138,6 +138,27 @@ def verifyBatchWith (ops : Ops) (legacy : Bool) (msgs sigs vks : List (List UInt
     let items := (msgs.zip (sigs.zip vks)).map fun (m, s, v) => batchItemWith ops legacy m s v
     items.all fun r => r == some true
 
+/-- The sequence of merlin transcript operations `(label, message)` performed by `verify_batch`
+  (batch.rs), in call order:
+  * nothing at all if the three lengths differ (the error is returned before the transcript exists);
+  * `Transcript::new(b"ed25519 batch verification")`, recorded as `("new", label)`, immediately
+    followed by the operation it is defined as in merlin, `append_message(b"dom-sep", label)`;
+  * `append_message(b"hram", SHA-512(R_i ‖ A_i ‖ M_i))` for every `i`;
+  * `append_message(b"sig.s", S_i)` for every `i`;
+  * `build_rng().finalize(&mut ZeroRng)` with no `rekey_with_witness_bytes` in between, recorded as
+    `("finalize", "")`.
+  All of this happens BEFORE the signatures are converted to `InternalSignature`, so it does not
+  depend on whether `S_i` is canonical or `R_i` decompresses. -/
+def batchTranscript (msgs sigs vks : List (List UInt8)) : List (List UInt8 × List UInt8) :=
+  if msgs.length != sigs.length || sigs.length != vks.length then []
+  else
+    let hrams := (msgs.zip (sigs.zip vks)).map fun (m, s, v) => sha512 (s.take 32 ++ v ++ m)
+    [("new".toUTF8.toList, "ed25519 batch verification".toUTF8.toList),
+     ("dom-sep".toUTF8.toList, "ed25519 batch verification".toUTF8.toList)]
+      ++ hrams.map (fun hr => ("hram".toUTF8.toList, hr))
+      ++ sigs.map (fun s => ("sig.s".toUTF8.toList, s.drop 32))
+      ++ [("finalize".toUTF8.toList, [])]
+
 /-! Instances with the specification group operations. -/
 abbrev publicKey := publicKeyWith Ops.spec
 abbrev sign := signWith Ops.spec
